@@ -114,3 +114,36 @@ Theorem C09_code_expression_to_terms :
        gwf_expr e -> serializer_expression_to_polyhedral_terms s e = expression_to_polyhedral_terms (to_sexpr e).
 Proof. exact @expression_to_polyhedral_terms_eq. Qed.
 Print Assumptions C09_code_expression_to_terms.
+
+(* ==== T1 tie (grammar structure) ==== *)
+Require Import PyParsing GrammarGen GrammarGenBase GrammarGenTokens GrammarGenTerms GrammarGenExpr GrammarGenFacts.
+(* T1 tie: the STRUCTURE of the pyparsing grammar of syntax/grammar.py (every rule: order of alternatives, optional and repeated parts, literals and which are suppressed, Combine, the Forward cycle, the infixNotation levels, which parse action sits on which rule) as translated ON THIS RUN (gen/GrammarGen.v, over the combinator library of model/Grammar.v, i.e. the modelled pyparsing engine) IS the hand-written parser: same result on every string. proofs/GrammarGen*.v *)
+Theorem C09_code_parse_expr :
+  forall s : string, parse_expr s = Grammar.parse_expr s.
+Proof. exact @parse_expr_gen_eq. Qed.
+Print Assumptions C09_code_parse_expr.
+Theorem C09_code_grammar_rules :
+  forall n : nat,
+       peq floating_point_number fpn_c /\
+       peq (arithmetic_expr n) (p_arith fla n) /\
+       peq (or_actions (por floating_point_number (paren_arith_expr n))) (number fla n) /\
+       peq (term n) (p_term fla n) /\
+       peq (terms n) (Grammar.terms fla n) /\
+       peq (paren_terms n) (paren_of (p_term fla n)) /\
+       peq (abs_term n) (Grammar.abs_term fla n) /\
+       peq (first_abs_or_term n) (Grammar.first_abs_or_term fla n) /\
+       peq (addl_abs_or_term n) (Grammar.addl_abs_or_term fla n) /\
+       peq (abs_or_terms n) (Grammar.abs_or_terms fla n) /\
+       peq (paren_abs_or_terms n) (Grammar.paren_abs_or_terms fla n) /\
+       peq (first_paren_abs_or_terms n) (Grammar.first_paren_abs_or_terms fla n) /\
+       peq (addl_paren_abs_or_terms n) (Grammar.addl_paren_abs_or_terms fla n) /\
+       peq (multi_paren_abs_or_terms n) (multi fla n) /\
+       peq (equality_expression n) (Grammar.equality_expression fla n) /\
+       peq (leq_expression n) (Grammar.leq_expression fla n) /\
+       peq (geq_expression n) (Grammar.geq_expression fla n) /\ peq (expression n) (Grammar.expression fla n).
+Proof. exact @grammar_rules_gen_eq. Qed.
+Print Assumptions C09_code_grammar_rules.
+Theorem C09_code_parser_total :
+  forall s : string, parse_expr s <> OutOfFuel.
+Proof. exact @parse_expr_gen_total. Qed.
+Print Assumptions C09_code_parser_total.
